@@ -225,6 +225,18 @@ def run_history(ops, probe_scenario):
 # ------------------------------------------------------------------ round trip
 
 
+ROUNDTRIP_FRAGMENTS = [
+    {"refine_methods": "integrate+newton"}, {"refine_atol": 1e-8},
+    {"finecontour_atol": 1e-11}, {"psi_interpolation_method": "dct"},
+    {"cap_Bp_ylow_xpoint": True}, {"geometry_rtol": 1e-9}, {"xpoint_offset": 0.2},
+    {"poloidal_spacing_method": "monotonic"}, {"follow_perpendicular_rtol": 1e-8},
+    {"wall_point_exclude_radius": 2e-3}, {"curvature_smoothing": "smoothnl"},
+    {"psi_core": None}, {"poloidal_spacing_delta_psi": 0.01}, {"leg_trace_atol": 1e-9},
+    {"N_norm_prefactor": 2.0}, {"target_all_poloidal_spacing_length": 1},
+    {"shiftedmetric": True}, {"refine_timeout": 20.0}, {"sfunc_checktol": 1e-12},
+]
+
+
 def roundtrip_case(rng, key):
     geom = rng.choice(("lsn", "lsn", "usn", "cdn", "udn", "ldn"))
     o = workloads.tok_options(geom, y_boundary_guards=rng.choice((0, 1)))
@@ -241,6 +253,11 @@ def roundtrip_case(rng, key):
     if rng.random() < 0.3:
         o["curvature_type"] = "curl(b/B) with x-y derivatives" if o.get(
             "orthogonal", True) else "curl(b/B)"
+    # a few further options in the forms users give them (string or list, None, int for
+    # float, per-leg overrides, the other interpolation method): each must survive being
+    # evaluated, dumped to YAML, loaded again and fed back
+    for frag in rng.sample(ROUNDTRIP_FRAGMENTS, rng.choice((0, 1, 2, 3))):
+        o.update(frag)
     np_ = rng.choice((1, 1, 2))
     if np_ > 1:
         o["number_of_processors"] = np_
